@@ -559,6 +559,8 @@ func (a *Allocator) allocateDedicatedMemory(
 
 		a.deviceMemory.FreeVulkanMemory(a.driver, memoryTypeIndex, allocations[allocIndex].Size(), allocations[allocIndex].memory)
 		a.deviceMemory.RemoveAllocation(a.deviceMemory.MemoryTypeIndexToHeapIndex(memoryTypeIndex), allocations[allocIndex].Size())
+		// The caller's object is unallocated again and can be reused
+		allocations[allocIndex].memory = nil
 	}
 
 	return res, err
